@@ -1,0 +1,651 @@
+//! Verification hooks. Only compiled with `--features verif`.
+//!
+//! Everything in here is observation: exports of crate-private information
+//! (token stream, syntax tree, opcode table, the collector type) and
+//! thread-local sinks that the guarded probes elsewhere in the crate write to.
+//! With the feature off this file is not part of the crate.
+
+use crate::ast::{Expr, Operator, Stmt};
+use crate::compiler::OpCode;
+use crate::lexer::Tokenizer;
+use crate::object::Error;
+use std::cell::RefCell;
+use std::collections::HashMap;
+use std::sync::Mutex;
+
+pub use crate::gc::GC;
+
+// ---------------------------------------------------------------------------
+// Thread-local sinks
+// ---------------------------------------------------------------------------
+
+#[derive(Default)]
+struct Sink {
+    /// Captured text written by print()
+    out: String,
+    /// Remaining instruction budget (None = unlimited)
+    budget: Option<u64>,
+    /// Number of instructions dispatched since the last reset
+    steps: u64,
+    /// Whether step events are recorded, and how many at most
+    record_steps: bool,
+    max_events: usize,
+    /// Only record steps whose opcode byte is in this set (empty = all)
+    step_filter: Vec<u8>,
+    events: Vec<Event>,
+    /// First out-of-contract access noticed by a probe
+    fault: Option<String>,
+    /// Whether heap / collector events are recorded
+    record_heap: bool,
+}
+
+/// One recorded event. Kept as plain data; the harness serialises it.
+#[derive(Clone, Debug)]
+pub enum Event {
+    /// Before dispatch of one instruction: ip, opcode byte, stack length, base pointer, frame count
+    Step {
+        ip: usize,
+        op: u8,
+        sp: usize,
+        bp: usize,
+        frames: usize,
+    },
+    /// A heap box was created
+    Alloc { id: u64 },
+    /// A heap box was released (id); `dup` if it was already dead
+    Free { id: u64, dup: bool },
+    /// A heap box was dereferenced while dead
+    DeadDeref { id: u64 },
+    /// Collector: object handed to a collector
+    Trace { gc: usize, id: u64 },
+    /// Collector: object removed from a collector without freeing it
+    Untrace { gc: usize, id: u64 },
+    /// Collector: a collection starts, with the ids reachable from the roots it was given
+    RunBegin { gc: usize, managed: Vec<u64>, given_roots: Vec<u64> },
+    /// Collector: the collection ended, with the survivors
+    RunEnd { gc: usize, managed: Vec<u64> },
+    /// Collector dropped, with what it still managed before the final sweep
+    Drop { gc: usize, managed: Vec<u64> },
+    /// Snapshot of everything the machine itself holds at a collection point:
+    /// direct heap ids in stack / globals / constants / last value / value being returned
+    /// plus the points-to edges (array id -> element ids) of everything reachable from them
+    Snapshot {
+        roots: Vec<u64>,
+        edges: Vec<(u64, Vec<u64>)>,
+    },
+    /// Mark phase computed an index outside the managed vector
+    MarkIndex { index: usize, len: usize },
+}
+
+thread_local! {
+    static SINK: RefCell<Sink> = RefCell::new(Sink::default());
+}
+
+/// Reset all per-thread hook state
+pub fn reset() {
+    SINK.with(|s| *s.borrow_mut() = Sink::default());
+}
+
+pub fn set_budget(budget: Option<u64>) {
+    SINK.with(|s| {
+        let mut s = s.borrow_mut();
+        s.budget = budget;
+        s.steps = 0;
+    });
+}
+
+pub fn record_steps(on: bool, max_events: usize, filter: &[u8]) {
+    SINK.with(|s| {
+        let mut s = s.borrow_mut();
+        s.record_steps = on;
+        s.max_events = max_events;
+        s.step_filter = filter.to_vec();
+    });
+}
+
+pub fn record_heap(on: bool) {
+    SINK.with(|s| s.borrow_mut().record_heap = on);
+}
+
+pub fn take_output() -> String {
+    SINK.with(|s| std::mem::take(&mut s.borrow_mut().out))
+}
+
+pub fn take_events() -> Vec<Event> {
+    SINK.with(|s| std::mem::take(&mut s.borrow_mut().events))
+}
+
+pub fn take_fault() -> Option<String> {
+    SINK.with(|s| s.borrow_mut().fault.take())
+}
+
+pub fn steps() -> u64 {
+    SINK.with(|s| s.borrow().steps)
+}
+
+pub(crate) fn out(text: String) {
+    SINK.with(|s| s.borrow_mut().out.push_str(&text));
+}
+
+pub(crate) fn fault(site: &str) {
+    SINK.with(|s| {
+        let mut s = s.borrow_mut();
+        if s.fault.is_none() {
+            s.fault = Some(site.to_string());
+        }
+    });
+}
+
+pub(crate) fn has_fault() -> bool {
+    SINK.with(|s| s.borrow().fault.is_some())
+}
+
+pub(crate) fn emit(e: Event) {
+    SINK.with(|s| {
+        let mut s = s.borrow_mut();
+        if s.record_heap {
+            s.events.push(e);
+        }
+    });
+}
+
+pub(crate) fn heap_recording() -> bool {
+    SINK.with(|s| s.borrow().record_heap)
+}
+
+/// Called at the top of the dispatch loop, before the instruction at `ip` is fetched.
+/// Returns an error when the run has to stop (budget exhausted, or a probe noticed an
+/// out-of-contract access during the previous instruction).
+pub(crate) fn on_step(ip: usize, op: Option<u8>, sp: usize, bp: usize, frames: usize) -> Option<Error> {
+    SINK.with(|s| {
+        let mut s = s.borrow_mut();
+        if let Some(site) = &s.fault {
+            return Some(Error::TypeError(format!("verif: fault {site}")));
+        }
+        if let Some(b) = s.budget {
+            if b == 0 {
+                return Some(Error::TypeError("verif: budget".to_string()));
+            }
+            s.budget = Some(b - 1);
+        }
+        s.steps += 1;
+        if s.record_steps && s.events.len() < s.max_events {
+            let op = op.unwrap_or(255);
+            if s.step_filter.is_empty() || s.step_filter.contains(&op) {
+                s.events.push(Event::Step {
+                    ip,
+                    op,
+                    sp,
+                    bp,
+                    frames,
+                });
+            }
+        }
+        None
+    })
+}
+
+// ---------------------------------------------------------------------------
+// Shadow heap: one process-wide table of boxes, keyed by address
+// ---------------------------------------------------------------------------
+
+struct ShadowBox {
+    id: u64,
+    live: bool,
+}
+
+struct Shadow {
+    next_id: u64,
+    boxes: HashMap<usize, ShadowBox>,
+    /// Number of boxes currently live
+    live: u64,
+    allocs: u64,
+    frees: u64,
+    double_frees: u64,
+    dead_derefs: u64,
+}
+
+static SHADOW: Mutex<Option<Shadow>> = Mutex::new(None);
+
+fn with_shadow<R>(f: impl FnOnce(&mut Shadow) -> R) -> R {
+    let mut g = SHADOW.lock().unwrap_or_else(|e| e.into_inner());
+    if g.is_none() {
+        *g = Some(Shadow {
+            next_id: 1,
+            boxes: HashMap::new(),
+            live: 0,
+            allocs: 0,
+            frees: 0,
+            double_frees: 0,
+            dead_derefs: 0,
+        });
+    }
+    f(g.as_mut().unwrap())
+}
+
+/// (live, allocs, frees, double_frees, dead_derefs) for the whole process
+pub fn shadow_counters() -> (u64, u64, u64, u64, u64) {
+    with_shadow(|s| (s.live, s.allocs, s.frees, s.double_frees, s.dead_derefs))
+}
+
+/// Ids of all boxes currently live in this process
+pub fn shadow_live_ids() -> Vec<u64> {
+    with_shadow(|s| {
+        let mut v: Vec<u64> = s.boxes.values().filter(|b| b.live).map(|b| b.id).collect();
+        v.sort();
+        v
+    })
+}
+
+/// The shadow id of the box at this address (0 if unknown)
+pub fn shadow_id(addr: usize) -> u64 {
+    with_shadow(|s| s.boxes.get(&addr).map(|b| b.id).unwrap_or(0))
+}
+
+pub fn shadow_is_live(addr: usize) -> bool {
+    with_shadow(|s| s.boxes.get(&addr).map(|b| b.live).unwrap_or(false))
+}
+
+pub(crate) fn shadow_alloc(addr: usize) {
+    let id = with_shadow(|s| {
+        let id = s.next_id;
+        s.next_id += 1;
+        s.allocs += 1;
+        s.live += 1;
+        s.boxes.insert(addr, ShadowBox { id, live: true });
+        id
+    });
+    emit(Event::Alloc { id });
+}
+
+/// Marks the box dead. Returns true if it was live (a correct release).
+pub(crate) fn shadow_free(addr: usize) -> bool {
+    let (id, was_live) = with_shadow(|s| match s.boxes.get_mut(&addr) {
+        Some(b) => {
+            let was = b.live;
+            if was {
+                b.live = false;
+                s.live -= 1;
+                s.frees += 1;
+            } else {
+                s.double_frees += 1;
+            }
+            (b.id, was)
+        }
+        None => {
+            s.double_frees += 1;
+            (0, false)
+        }
+    });
+    emit(Event::Free {
+        id,
+        dup: !was_live,
+    });
+    if !was_live {
+        fault("double-free");
+    }
+    was_live
+}
+
+/// Checks that the box at `addr` is live; records a fault otherwise.
+pub(crate) fn shadow_deref(addr: usize) -> bool {
+    let (id, live) = with_shadow(|s| match s.boxes.get(&addr) {
+        Some(b) => {
+            if !b.live {
+                s.dead_derefs += 1;
+            }
+            (b.id, b.live)
+        }
+        // Boxes that were never registered (none today) are not judged
+        None => (0, true),
+    });
+    if !live {
+        emit(Event::DeadDeref { id });
+        fault("dead-deref");
+    }
+    live
+}
+
+// ---------------------------------------------------------------------------
+// Collector events
+// ---------------------------------------------------------------------------
+
+use crate::object::Object;
+
+fn ids_of(objs: &[Object]) -> Vec<u64> {
+    objs.iter()
+        .filter(|o| o.is_heap_allocated())
+        .map(|o| shadow_id(o.as_ptr() as usize))
+        .collect()
+}
+
+pub(crate) fn gc_trace(gc: usize, o: Object) {
+    if heap_recording() {
+        emit(Event::Trace {
+            gc,
+            id: shadow_id(o.as_ptr() as usize),
+        });
+    }
+}
+
+pub(crate) fn gc_untrace(gc: usize, o: Object) {
+    if heap_recording() {
+        emit(Event::Untrace {
+            gc,
+            id: shadow_id(o.as_ptr() as usize),
+        });
+    }
+}
+
+pub(crate) fn gc_run_begin(gc: usize, managed: &[Object], roots: &[&[Object]]) {
+    if heap_recording() {
+        let mut given = Vec::new();
+        for r in roots {
+            given.extend(ids_of(r));
+        }
+        emit(Event::RunBegin {
+            gc,
+            managed: ids_of(managed),
+            given_roots: given,
+        });
+    }
+}
+
+pub(crate) fn gc_run_end(gc: usize, managed: &[Object]) {
+    if heap_recording() {
+        emit(Event::RunEnd {
+            gc,
+            managed: ids_of(managed),
+        });
+    }
+}
+
+pub(crate) fn gc_drop(gc: usize, managed: &[Object]) {
+    if heap_recording() {
+        emit(Event::Drop {
+            gc,
+            managed: ids_of(managed),
+        });
+    }
+}
+
+pub(crate) fn gc_mark_index(index: usize, len: usize) {
+    emit(Event::MarkIndex { index, len });
+}
+
+/// Everything the machine itself holds at a collection point (direct heap references)
+pub(crate) fn snapshot(roots: &[&[Object]]) {
+    if heap_recording() {
+        let mut ids = Vec::new();
+        let mut edges = Vec::new();
+        let mut seen: Vec<u64> = Vec::new();
+        let mut work: Vec<Object> = Vec::new();
+        for r in roots {
+            ids.extend(ids_of(r));
+            work.extend(r.iter().filter(|o| o.is_heap_allocated()));
+        }
+        while let Some(o) = work.pop() {
+            let id = shadow_id(o.as_ptr() as usize);
+            if seen.contains(&id) {
+                continue;
+            }
+            seen.push(id);
+            if o.tag() == crate::object::Type::Array && shadow_is_live(o.as_ptr() as usize) {
+                let kids = o.as_vec();
+                edges.push((id, ids_of(kids)));
+                work.extend(kids.iter().filter(|k| k.is_heap_allocated()));
+            }
+        }
+        emit(Event::Snapshot { roots: ids, edges });
+    }
+}
+
+/// Direct heap references held by an array box, as shadow ids (for reachability)
+pub fn shadow_children(o: Object) -> Vec<u64> {
+    if o.tag() == crate::object::Type::Array && shadow_is_live(o.as_ptr() as usize) {
+        ids_of(o.as_vec())
+    } else {
+        Vec::new()
+    }
+}
+
+/// The shadow id of a heap value (0 for immediates)
+pub fn shadow_id_of(o: Object) -> u64 {
+    if o.is_heap_allocated() {
+        shadow_id(o.as_ptr() as usize)
+    } else {
+        0
+    }
+}
+
+// ---------------------------------------------------------------------------
+// Exports of crate-private information
+// ---------------------------------------------------------------------------
+
+/// The opcode table: (byte, name, operand widths), for every defined opcode
+pub fn opcode_table() -> Vec<(u8, String, Vec<usize>)> {
+    let mut table = Vec::new();
+    for b in 0..=(OpCode::Halt as u8) {
+        let op = OpCode::from(b);
+        table.push((b, op.to_string(), op.verif_operands()));
+    }
+    table
+}
+
+/// Number of builtin functions the CallBuiltin instruction can address
+pub fn builtin_count() -> u8 {
+    crate::builtins::Builtin::Length as u8 + 1
+}
+
+/// Name -> builtin number, as the compiler resolves it
+pub fn builtin_number(name: &str) -> Option<u8> {
+    crate::builtins::resolve(name).map(|b| b as u8)
+}
+
+/// One token as the lexer produced it: Debug rendering, and the byte offsets
+/// of the tokenizer before and after producing it.
+pub struct TokenInfo {
+    pub debug: String,
+    pub start: usize,
+    pub end: usize,
+}
+
+/// The complete token stream for `input`, and the tokenizer's final offset.
+pub fn tokens(input: &str) -> (Vec<TokenInfo>, usize) {
+    let mut t = Tokenizer::new(input);
+    let mut v = Vec::new();
+    loop {
+        let start = t.verif_offset();
+        match t.next() {
+            Some(tok) => v.push(TokenInfo {
+                debug: format!("{tok:?}"),
+                start,
+                end: t.verif_offset(),
+            }),
+            None => break,
+        }
+    }
+    (v, t.verif_offset())
+}
+
+fn json_str(s: &str) -> String {
+    let cps: Vec<String> = s.chars().map(|c| (c as u32).to_string()).collect();
+    format!("[{}]", cps.join(","))
+}
+
+fn json_ids(ids: &[usize]) -> String {
+    let v: Vec<String> = ids.iter().map(|i| i.to_string()).collect();
+    format!("[{}]", v.join(","))
+}
+
+fn op_name(o: &Operator) -> &'static str {
+    match o {
+        Operator::Add => "+",
+        Operator::Subtract => "-",
+        Operator::Multiply => "*",
+        Operator::Divide => "/",
+        Operator::Gt => ">",
+        Operator::Gte => ">=",
+        Operator::Lt => "<",
+        Operator::Lte => "<=",
+        Operator::Eq => "==",
+        Operator::Neq => "!=",
+        Operator::Not => "!",
+        Operator::Negate => "neg",
+        Operator::And => "&&",
+        Operator::Or => "||",
+        Operator::Modulo => "%",
+        Operator::Assign => "=",
+    }
+}
+
+struct AstOut {
+    nodes: Vec<String>,
+}
+
+impl AstOut {
+    fn push(&mut self, s: String) -> usize {
+        self.nodes.push(s);
+        self.nodes.len()
+    }
+
+    fn block(&mut self, b: &[Stmt]) -> Vec<usize> {
+        b.iter().map(|s| self.stmt(s)).collect()
+    }
+
+    fn stmt(&mut self, s: &Stmt) -> usize {
+        match s {
+            Stmt::Let(name, e) => {
+                let e = self.expr(e);
+                self.push(format!(
+                    "{{\"k\":\"Let\",\"name\":{},\"e\":{e}}}",
+                    json_str(name)
+                ))
+            }
+            Stmt::Return(e) => {
+                let e = self.expr(e);
+                self.push(format!("{{\"k\":\"Return\",\"e\":{e}}}"))
+            }
+            Stmt::Expr(e) => {
+                let e = self.expr(e);
+                self.push(format!("{{\"k\":\"Expr\",\"e\":{e}}}"))
+            }
+            Stmt::Block(b) => {
+                let ids = self.block(b);
+                self.push(format!("{{\"k\":\"Block\",\"body\":{}}}", json_ids(&ids)))
+            }
+            Stmt::Break => self.push("{\"k\":\"Break\"}".to_string()),
+            Stmt::Continue => self.push("{\"k\":\"Continue\"}".to_string()),
+        }
+    }
+
+    fn expr(&mut self, e: &Expr) -> usize {
+        match e {
+            Expr::Infix {
+                left,
+                operator,
+                right,
+            } => {
+                let l = self.expr(left);
+                let r = self.expr(right);
+                self.push(format!(
+                    "{{\"k\":\"Infix\",\"op\":\"{}\",\"l\":{l},\"r\":{r}}}",
+                    op_name(operator)
+                ))
+            }
+            Expr::Prefix { operator, right } => {
+                let r = self.expr(right);
+                self.push(format!(
+                    "{{\"k\":\"Prefix\",\"op\":\"{}\",\"r\":{r}}}",
+                    op_name(operator)
+                ))
+            }
+            Expr::Int { value } => self.push(format!("{{\"k\":\"Int\",\"v\":\"{value}\"}}")),
+            Expr::Float { value } => self.push(format!(
+                "{{\"k\":\"Float\",\"bits\":\"{}\"}}",
+                value.to_bits()
+            )),
+            Expr::Bool { value } => self.push(format!("{{\"k\":\"Bool\",\"v\":{value}}}")),
+            Expr::If {
+                condition,
+                consequence,
+                alternative,
+            } => {
+                let c = self.expr(condition);
+                let th = self.block(consequence);
+                let (hasel, el) = match alternative {
+                    Some(a) => (true, self.block(a)),
+                    None => (false, vec![]),
+                };
+                self.push(format!(
+                    "{{\"k\":\"If\",\"c\":{c},\"th\":{},\"hasel\":{hasel},\"el\":{}}}",
+                    json_ids(&th),
+                    json_ids(&el)
+                ))
+            }
+            Expr::Identifier(name) => {
+                self.push(format!("{{\"k\":\"Ident\",\"name\":{}}}", json_str(name)))
+            }
+            Expr::Function {
+                name,
+                parameters,
+                body,
+            } => {
+                let body = self.block(body);
+                let params: Vec<String> = parameters.iter().map(|p| json_str(p)).collect();
+                self.push(format!(
+                    "{{\"k\":\"Func\",\"name\":{},\"params\":[{}],\"body\":{}}}",
+                    json_str(name),
+                    params.join(","),
+                    json_ids(&body)
+                ))
+            }
+            Expr::Call { left, arguments } => {
+                let f = self.expr(left);
+                let args: Vec<usize> = arguments.iter().map(|a| self.expr(a)).collect();
+                self.push(format!(
+                    "{{\"k\":\"Call\",\"f\":{f},\"args\":{}}}",
+                    json_ids(&args)
+                ))
+            }
+            Expr::Assign { left, right } => {
+                let l = self.expr(left);
+                let r = self.expr(right);
+                self.push(format!("{{\"k\":\"Assign\",\"l\":{l},\"r\":{r}}}"))
+            }
+            Expr::String { value } => {
+                self.push(format!("{{\"k\":\"Str\",\"cp\":{}}}", json_str(value)))
+            }
+            Expr::Array { values } => {
+                let vals: Vec<usize> = values.iter().map(|a| self.expr(a)).collect();
+                self.push(format!("{{\"k\":\"Array\",\"vals\":{}}}", json_ids(&vals)))
+            }
+            Expr::Index { left, index } => {
+                let l = self.expr(left);
+                let i = self.expr(index);
+                self.push(format!("{{\"k\":\"Index\",\"l\":{l},\"i\":{i}}}"))
+            }
+            Expr::While { condition, body } => {
+                let c = self.expr(condition);
+                let body = self.block(body);
+                self.push(format!(
+                    "{{\"k\":\"While\",\"c\":{c},\"body\":{}}}",
+                    json_ids(&body)
+                ))
+            }
+        }
+    }
+}
+
+/// The syntax tree the parser produced for `input`, as a flattened node table
+/// `{"nodes":[...],"root":[ids]}` with 1-based node ids (children before parents).
+pub fn ast_json(input: &str) -> Result<String, Error> {
+    let ast = crate::parser::parse(input)?;
+    let mut out = AstOut { nodes: Vec::new() };
+    let root = out.block(&ast);
+    Ok(format!(
+        "{{\"nodes\":[{}],\"root\":{}}}",
+        out.nodes.join(","),
+        json_ids(&root)
+    ))
+}
